@@ -1,6 +1,8 @@
 package props
 
 import (
+	"path/filepath"
+	"os"
 	"fmt"
 	"strings"
 	"sync"
@@ -296,7 +298,7 @@ func init() {
 			"(2) the same calls issued concurrently by 8 goroutines on shared values under the Go race detector (any report = a write by a read-only API); " +
 			"(3) determinism: each output recomputed 12 times from fresh parses in-process (Go randomises map iteration per range statement) and across 4 fresh processes of the real binary; non-trivial = every subject; distinct = distinct (subject, call sequence)",
 		Floors: map[string]int{"read_only_calls": 100000, "patched_after_rendering": 10000, "call:RenderPatch": 10000, "call:RenderMerge": 10000,
-			"determinism_recomputations": 50000, "race_goroutine_calls": 20000, "cross_process_runs": 400, "src:merge-text": 2000, "src:patch-text": 2000, "shared_option_slice_with_render_option": 3000, "opt_precision_subjects": 500, "partial_digest_collisions": 100},
+			"determinism_recomputations": 50000, "race_goroutine_calls": 20000, "cross_process_runs": 400, "src:merge-text": 2000, "src:patch-text": 2000, "shared_option_slice_with_render_option": 3000, "opt_precision_subjects": 500, "partial_digest_collisions": 100, "same_content_different_handles": 100},
 		Assumptions: []string{
 			"Patch is not claimed pure (it edits its receiver) and is always applied to a fresh parse",
 			"the race detector only sees writes that actually execute on the generated subjects",
@@ -481,6 +483,30 @@ func init() {
 				if res2.Stdout != res.Stdout || res2.Status != res.Status {
 					c.Violation("the same inputs diffed by two fresh processes give different output", map[string]any{"first": res.Stdout, "later": res2.Stdout})
 					return
+				}
+			}
+			// output is a function of the CONTENT of the inputs: the same bytes handed in as two names of one file,
+			// as a file and its copy, through /dev/stdin, or with standard output on /dev/null and -o, print the same
+			if i%3 == 0 {
+				for _, bin := range []Binary{BinV2, BinTop} {
+					for _, f := range []string{"jd", "patch", "merge"} {
+						fl := []string{"-f", f}
+						cp := RunCLI(c, bin, append(append([]string{}, fl...), "a.json", "acopy.json"), "", map[string]string{"a.json": s.aText, "acopy.json": s.aText})
+						same := RunCLI(c, bin, append(append([]string{}, fl...), "a.json", "./a.json"), "", nil)
+						dev := RunCLI(c, bin, append(append([]string{}, fl...), "a.json", "/dev/stdin"), s.aText, nil)
+						os.Remove(filepath.Join(c.WorkDir, "o.txt"))
+						RunCLIDevNull(c, bin, append(append([]string{"-o", "o.txt"}, fl...), "a.json", "acopy.json"), "", nil)
+						ofile, _ := os.ReadFile(filepath.Join(c.WorkDir, "o.txt"))
+						c.Feature("cross_process_runs")
+						c.Feature("same_content_different_handles")
+						want := fmt.Sprint(cp.Status) + "|" + cp.Stdout
+						for name, got := range map[string]string{"two names of one file": fmt.Sprint(same.Status) + "|" + same.Stdout, "/dev/stdin": fmt.Sprint(dev.Status) + "|" + dev.Stdout, "-o with stdout on /dev/null": fmt.Sprint(cp.Status) + "|" + string(ofile)} {
+							if got != want {
+								c.Violation("the same content handed in as "+name+" gives another output than a file and its byte-identical copy ("+bin.Name+" -f "+f+")", map[string]any{"copy": want, "other": got})
+								return
+							}
+						}
+					}
 				}
 			}
 			c.Nontrivial(joinKey("xproc", s.text, s.aText, s.bText))
